@@ -208,10 +208,15 @@ def specC04 (j : Json) : Json :=
       let frame := frameOfJson ((j.getObjVal? "frame").toOption.getD Json.null)
       let names := namesOfJson ((j.getObjVal? "names").toOption.getD Json.null)
       let env : Env := { frame, names }
+      -- "train_frame" present: `frame` is a new frame given to evaluate_new_data, the matrices are
+      -- the new matrices (same labels); call atoms keep their training-time transform state
+      let tenv : Option Env := match j.getObjVal? "train_frame" with
+        | .ok (.obj o) => some { frame := frameOfJson (.obj o), names }
+        | _ => none
       let parts := (getArr j "parts").map (fun p =>
         let labels := strList p "labels"
         let m := matrixOfJson ((p.getObjVal? "matrix").toOption.getD Json.null)
-        match Spec.C04.check env table labels m with
+        match Spec.C04.checkAt tenv env table labels m with
         | .ok v => Json.mkObj [("ok", v.ok), ("judged", v.judged), ("skipped", v.skipped),
                                ("first_bad", match v.firstBad with | some l => Json.str l | none => Json.null),
                                ("level_order_ok", Spec.C04.levelOrderOk env labels)]
